@@ -1,1 +1,504 @@
-/-! Property theorems for C15 — placeholder until the property's model is built. -/
+import FcpptProofs.C15.Bytes
+import FcpptProofs.C15.Extract
+import FcpptProofs.C15.EnumVec
+import FcpptProofs.C15.Old
+import FcpptProofs.C15.Widen
+/-!
+# C15 — textual and binary encodings round-trip losslessly: property theorems
+
+Model: `FcpptModel/Model/C15/*.lean`, meanings: `FcpptModel/Spec/C15.lean`, lemmas: `FcpptProofs/C15/*.lean`.
+-/
+namespace Fcppt.C15
+
+/-! ## byte order (`reverse_mem`, `endianness::swap/convert`, `io::write/read`) -/
+
+/-- The index loop of `reverse_mem.cpp` never leaves the buffer and reverses it (every length, every element type). -/
+theorem reverse_mem_is_reverse {α : Type} (d : List α) : reverseMem d = .ok d.reverse :=
+  reverseMem_eq_reverse d
+
+theorem reverse_involutive {α : Type} (d : List α) : (reverseMem d >>= reverseMem) = .ok d := by
+  simp [reverseMem_eq_reverse, bind, Except.bind]
+
+/-- `swap(swap(v)) = v` for every value of every integer type of `bytes ≥ 1` bytes, on either kind of machine. -/
+theorem swap_swap (native : Endian) (t : IntTy) (v : Int) (ht : 0 < t.bytes) (hv : t.InRange v) :
+    (swap native t v >>= swap native t) = .ok v := by
+  simp only [swap_eq, bind, Except.bind]
+  rw [objRep_ofObjRep native t _ ht (by simp), List.reverse_reverse, ofObjRep_objRep native t v ht hv]
+
+/-- `swap` stays inside the type (it is a permutation of the type's values). -/
+theorem swap_in_range (native : Endian) (t : IntTy) (v : Int) (ht : 0 < t.bytes) :
+    ∃ r, swap native t v = .ok r ∧ t.InRange r :=
+  ⟨_, swap_eq native t v, ofObjRep_inRange native t _ ht (by simp)⟩
+
+/-- `convert(convert(v, e), e) = v` for both values of `e` (host → format → host). -/
+theorem convert_roundtrip (native : Endian) (t : IntTy) (v : Int) (e : Endian) (ht : 0 < t.bytes) (hv : t.InRange v) :
+    (convert native t v e >>= fun x => convert native t x e) = .ok v := by
+  unfold convert
+  by_cases h : e = native
+  · simp [h, bind, Except.bind, pure, Except.pure]
+  · simp only [if_neg h]; exact swap_swap native t v ht hv
+
+/-- The bytes `io::write` emits for `std::endian::big` are the base-256 digits of the value's (two's complement)
+bits, most significant first — whatever the machine's own order is; they are appended to what the stream held. -/
+theorem write_bytes_big_is_msb_first (native : Endian) (t : IntTy) (s : List Byte) (v : Int) (ht : 0 < t.bytes) (hv : t.InRange v) :
+    ∃ out, write native t s v .big = .ok (s ++ out) ∧ out.map Fin.val = Spec.beDigits t.bytes (Spec.twos t.bits v) := by
+  rw [← toU_eq_twos t v ht hv, beDigits_eq_reverse, ← leBytes_map_val]
+  cases native
+  · refine ⟨(leBytes t.bytes (toU t v)).reverse, ?_, by simp⟩
+    simp only [write, convert, swap_eq, bind, Except.bind, pure, Except.pure, if_neg (by decide : Endian.big ≠ Endian.little)]
+    rw [objRep_ofObjRep _ t _ ht (by simp)]; simp [objRep]
+  · exact ⟨(leBytes t.bytes (toU t v)).reverse, by simp [write, convert, objRep, bind, Except.bind, pure, Except.pure], by simp⟩
+
+/-- … and least significant first for `std::endian::little`. -/
+theorem write_bytes_little_is_lsb_first (native : Endian) (t : IntTy) (s : List Byte) (v : Int) (ht : 0 < t.bytes) (hv : t.InRange v) :
+    ∃ out, write native t s v .little = .ok (s ++ out) ∧ out.map Fin.val = Spec.leDigits t.bytes (Spec.twos t.bits v) := by
+  rw [← toU_eq_twos t v ht hv, ← leBytes_map_val]
+  cases native
+  · exact ⟨leBytes t.bytes (toU t v), by simp [write, convert, objRep, bind, Except.bind, pure, Except.pure], rfl⟩
+  · refine ⟨leBytes t.bytes (toU t v), ?_, rfl⟩
+    simp only [write, convert, swap_eq, bind, Except.bind, pure, Except.pure, if_neg (by decide : Endian.little ≠ Endian.big)]
+    rw [objRep_ofObjRep _ t _ ht (by simp)]; simp [objRep]
+
+/-- The digit lists of the two theorems above determine the number (so the byte layout loses nothing):
+Horner evaluation gives back the `8·n`-bit pattern. -/
+theorem digits_value (n x : Nat) (hx : x < 256 ^ n) :
+    Spec.ofBE (Spec.beDigits n x) = x ∧ Spec.ofLE (Spec.leDigits n x) = x := by
+  rw [spec_ofBE_beDigits, spec_ofLE_leDigits, Nat.mod_eq_of_lt hx]; exact ⟨rfl, rfl⟩
+
+/-- `io::write` then `io::read` in the same byte order gives the value back, consumes exactly what was written and
+leaves the rest of the stream alone: every width, signedness, byte order, machine and value. -/
+theorem read_write_roundtrip (native : Endian) (t : IntTy) (v : Int) (e : Endian)
+    (ht : 0 < t.bytes) (hv : t.InRange v) :
+    ∃ out, write native t [] v e = .ok out ∧ out.length = t.bytes ∧
+      ∀ rest, read native t (out ++ rest) e = .ok (some v, rest) := by
+  obtain ⟨x, hx⟩ : ∃ x, convert native t v e = .ok x := by
+    unfold convert; split
+    · exact ⟨_, rfl⟩
+    · exact ⟨_, swap_eq native t v⟩
+  have hback : convert native t x e = .ok v := by
+    have := convert_roundtrip native t v e ht hv
+    simpa [hx, bind, Except.bind] using this
+  have hxr : t.InRange x := by
+    unfold convert at hx; split at hx
+    · cases hx; exact hv
+    · rw [swap_eq] at hx; cases hx; exact ofObjRep_inRange native t _ ht (by simp)
+  refine ⟨objRep native t x, by simp [write, hx, bind, Except.bind, pure, Except.pure], by simp, fun rest => ?_⟩
+  unfold read
+  rw [if_neg (by simp)]
+  simp only [List.take_left' (length_objRep native t x), List.drop_left' (length_objRep native t x),
+    ofObjRep_objRep native t x ht hxr, hback, bind, Except.bind, pure, Except.pure]
+
+/-- Any number of values written to one stream come back in order, exactly `n · sizeof(Type)` bytes are used and one
+more read fails without a value. -/
+theorem read_write_many_roundtrip (native : Endian) (t : IntTy) (e : Endian) (vs : List Int)
+    (ht : 0 < t.bytes) (hv : ∀ v ∈ vs, t.InRange v) :
+    ∃ out, writeAll native t e vs [] = .ok out ∧ out.length = t.bytes * vs.length ∧
+      readN native t e (vs.length + 1) out = .ok (vs, []) := by
+  -- generalised over what the stream already holds (for writing) and how many more reads follow
+  have key : ∀ (vs : List Int), (∀ v ∈ vs, t.InRange v) → ∀ (pre : List Byte),
+      ∃ out, writeAll native t e vs pre = .ok (pre ++ out) ∧ out.length = t.bytes * vs.length ∧
+        ∀ n, readN native t e (vs.length + n) out = (readN native t e n []).map (fun p => (vs ++ p.1, p.2)) := by
+    intro vs
+    induction vs with
+    | nil =>
+      intro _ pre
+      refine ⟨[], by simp [writeAll, pure, Except.pure], by simp, fun n => ?_⟩
+      simp only [List.length_nil, Nat.zero_add, List.nil_append]
+      cases readN native t e n [] <;> rfl
+    | cons v vs ih =>
+      intro hv pre
+      obtain ⟨o1, hw1, hl1, hr1⟩ := read_write_roundtrip native t v e ht (hv v (by simp))
+      have hwpre : write native t pre v e = .ok (pre ++ o1) := by
+        unfold write at hw1 ⊢
+        cases hc : convert native t v e with
+        | error f => simp [hc, bind, Except.bind] at hw1
+        | ok x => simp [hc, bind, Except.bind, pure, Except.pure] at hw1 ⊢; rw [← hw1]
+      obtain ⟨o2, hw2, hl2, hr2⟩ := ih (fun x hx => hv x (by simp [hx])) (pre ++ o1)
+      refine ⟨o1 ++ o2, ?_, ?_, fun n => ?_⟩
+      · simp only [writeAll, List.foldlM_cons, hwpre, bind, Except.bind] at hw2 ⊢
+        rw [hw2, List.append_assoc]
+      · simp only [List.length_append, List.length_cons, hl1, hl2, Nat.mul_add, Nat.mul_one]; omega
+      · rw [show (v :: vs).length + n = (vs.length + n) + 1 by simp only [List.length_cons]; omega]
+        simp only [readN, hr1 o2, bind, Except.bind, hr2 n]
+        cases readN native t e n [] <;> simp [Except.map, pure, Except.pure]
+  obtain ⟨out, hw, hl, hr⟩ := key vs hv []
+  refine ⟨out, by simpa using hw, hl, ?_⟩
+  rw [hr 1]
+  have hshort : read native t [] e = .ok (none, []) := by simp [read, ht, pure, Except.pure]
+  simp [readN, hshort, pure, Except.pure, bind, Except.bind, Except.map]
+
+/-- A stream that holds fewer than `sizeof(Type)` bytes never yields a value (no value from a partial read). -/
+theorem read_short_input_fails (native : Endian) (t : IntTy) (s : List Byte) (e : Endian) (h : s.length < t.bytes) :
+    read native t s e = .ok (none, []) := by
+  simp [read, h, pure, Except.pure]
+
+/-- Conversely a value is only ever produced from `sizeof(Type)` bytes, it is a value of the type, and writing it
+reproduces exactly the bytes that were read (reading loses nothing either). -/
+theorem read_some_complete (native : Endian) (t : IntTy) (s : List Byte) (e : Endian) (ht : 0 < t.bytes) :
+    t.bytes ≤ s.length →
+    ∃ v, read native t s e = .ok (some v, s.drop t.bytes) ∧ t.InRange v ∧ write native t [] v e = .ok (s.take t.bytes) := by
+  intro hl
+  have hlen : (s.take t.bytes).length = t.bytes := by simp; omega
+  have hr : t.InRange (ofObjRep native t (s.take t.bytes)) := ofObjRep_inRange native t _ ht hlen
+  unfold read
+  rw [if_neg (by omega)]
+  by_cases h : e = native
+  · refine ⟨ofObjRep native t (s.take t.bytes), by simp [convert, h, bind, Except.bind, pure, Except.pure], hr, ?_⟩
+    simp [write, convert, h, bind, Except.bind, pure, Except.pure, objRep_ofObjRep native t _ ht hlen]
+  · refine ⟨ofObjRep native t (objRep native t (ofObjRep native t (s.take t.bytes))).reverse, ?_, ?_, ?_⟩
+    · simp [convert, h, swap_eq, bind, Except.bind, pure, Except.pure]
+    · exact ofObjRep_inRange native t _ ht (by simp)
+    · simp only [write, convert, if_neg h, swap_eq, bind, Except.bind, pure, Except.pure, List.nil_append]
+      rw [objRep_ofObjRep native t _ ht hlen]
+      have h2 : ((s.take t.bytes).reverse).length = t.bytes := by rw [List.length_reverse]; exact hlen
+      rw [objRep_ofObjRep native t _ ht h2, List.reverse_reverse, objRep_ofObjRep native t _ ht hlen]
+
+/-! ### non-vacuity: concrete values on the little-endian machine of the sandbox -/
+
+def u32 : IntTy := ⟨4, false⟩
+def i16 : IntTy := ⟨2, true⟩
+
+example : write .little u32 [] 0x01020304 .big = .ok [1, 2, 3, 4] := by decide
+example : write .little u32 [] 0x01020304 .little = .ok [4, 3, 2, 1] := by decide
+example : write .little i16 [] (-2) .big = .ok [0xFF, 0xFE] := by decide
+example : read .little i16 [0xFF, 0xFE, 7] .big = .ok (some (-2), [7]) := by decide
+example : read .little u32 [1, 2, 3] .big = .ok (none, []) := by decide
+example : swap .little i16 1 = .ok 256 := by decide
+example : swap .little i16 128 = .ok (-32768) := by decide
+example : reverseMem [1, 2, 3, 4, 5] = .ok [5, 4, 3, 2, 1] := by decide
+example : u32.InRange 0x01020304 ∧ i16.InRange (-2) := by decide
+
+
+/-! ## decimal text (`output_to_string`, `extract_from_string`) -/
+
+/-- Printing any value of any integer type of 1…8 bytes (that is not a character type) and parsing the text back
+gives the value: `extract_from_string<T>(output_to_string(v)) = v`, and the whole text is consumed. -/
+theorem extract_output_roundtrip (t : IntTy) (ht : 0 < t.bytes) (h8 : t.bytes ≤ 8) (v : Int) (hv : t.InRange v) :
+    extractFromString (.num t) (outputToString (.num t) v) = some v :=
+  extractFromString_output_num t ht h8 v hv
+
+/-- Character types (`char`, `signed char`, `unsigned char` = `std::int8_t`/`std::uint8_t`) are written and read as
+one character: every value whose character is not white space comes back (needs the `peek()` test of 900f8ee) … -/
+theorem extract_output_roundtrip_char (sg : Bool) (v : Int) (hv : IntTy.InRange ⟨1, sg⟩ v) (hs : isSpace (charCode v) = false) :
+    extractFromString (.char sg) (outputToString (.char sg) v) = some v := by
+  have hc : charValue sg (charCode v) = v := by
+    unfold IntTy.InRange IntTy.minVal IntTy.maxVal IntTy.bits at hv
+    unfold charValue charCode
+    cases sg <;> simp at hv ⊢ <;> omega
+  unfold extractFromString extract outputToString IStream.ofString
+  simp only [getChar_nonspace _ _ hs, Bool.false_eq_true, if_false, Option.map_some, hc]
+  simp [peek, sentry, IStream.good]
+
+/-- … and for the six white-space characters (`\t \n \v \f \r` and space) the extraction skips the character and
+reports failure: no value, never a wrong one. -/
+theorem extract_output_char_whitespace (sg : Bool) (v : Int) (hs : isSpace (charCode v) = true) :
+    extractFromString (.char sg) (outputToString (.char sg) v) = none := by
+  unfold extractFromString extract outputToString IStream.ofString getChar sentry IStream.good
+  simp [List.dropWhile, hs]
+
+/-- Never truncates: when `extract_from_string<T>` returns a value, the **whole** text was the numeral (white space,
+optional sign, digits — nothing behind), the value is the numeral's value and a value of the type. -/
+theorem extract_never_truncates (t : IntTy) (ht : 0 < t.bytes) (s : List Ch) (v : Int)
+    (h : extractFromString (.num t) s = some v) :
+    ∃ neg mag, Spec.IsNumeral s neg mag ∧ t.InRange v ∧ v = Spec.numeralValue t.signed t.bits neg mag :=
+  extractFromString_num_some t ht s v h
+
+/-- Anything behind the numeral that is not a further digit makes the extraction fail. -/
+theorem extract_rejects_trailing (t : IntTy) (ht : 0 < t.bytes) (h8 : t.bytes ≤ 8) (v : Int) (hv : t.InRange v)
+    (c : Ch) (rest : List Ch) (hc : isDigit c = false) :
+    extractFromString (.num t) (outputToString (.num t) v ++ c :: rest) = none := by
+  have h := extractNum_putInt t ht h8 v hv (c :: rest) (noDigitHead_cons hc)
+  unfold extractFromString extract outputToString IStream.ofString
+  simp only [h]
+  simp [peek, sentry, IStream.good]
+
+/-- A character destination accepts exactly: white space, then one character that is the last one. -/
+theorem extract_never_truncates_char (sg : Bool) (s : List Ch) (v : Int) (h : extractFromString (.char sg) s = some v) :
+    ∃ ws c, s = ws ++ [c] ∧ (∀ x ∈ ws, Spec.IsSpaceChar x) ∧ isSpace c = false ∧ v = charValue sg c := by
+  unfold extractFromString extract IStream.ofString getChar sentry IStream.good at h
+  simp only [Bool.not_false, Bool.and_self, if_true, Bool.false_eq_true, if_false] at h
+  have hsplit := List.takeWhile_append_dropWhile (p := isSpace) (l := s)
+  cases hb : s.dropWhile isSpace with
+  | nil => simp [hb] at h
+  | cons c r =>
+    simp only [hb, List.isEmpty_cons, Bool.false_eq_true, if_false, if_true, Option.map_some] at h
+    have hcs : isSpace c = false := by
+      cases hc : isSpace c with
+      | false => rfl
+      | true =>
+        have h1 : (s.dropWhile isSpace).head? = some c := by rw [hb]; rfl
+        have := List.head?_dropWhile_not (p := isSpace) (l := s)
+        rw [h1] at this
+        simp [hc] at this
+    cases r with
+    | nil =>
+      refine ⟨s.takeWhile isSpace, c, ?_, takeWhile_space_spec s, hcs, ?_⟩
+      · rw [← hb, hsplit]
+      · simp [peek, sentry, IStream.good] at h; exact h.symm
+    | cons d r => simp [peek, sentry, IStream.good] at h
+
+/-! ### the defect repaired by 900f8ee, refuted on a witness: with `iss.eof()` no character could ever be extracted -/
+
+example : Old.extractFromString (.char true) [97] = none := by decide
+example : extractFromString (.char true) [97] = some 97 := by decide
+/-- for number types both tests agree on this input -/
+example : Old.extractFromString (.num i16) [45, 49, 50] = some (-12) ∧ extractFromString (.num i16) [45, 49, 50] = some (-12) := by decide
+
+/-! ### non-vacuity -/
+example : outputToString (.num i16) (-32768) = [45, 51, 50, 55, 54, 56] := by decide
+example : extractFromString (.num i16) [32, 45, 51, 50, 55, 54, 56] = some (-32768) := by decide
+example : extractFromString (.num i16) [51, 50, 55, 54, 56] = none := by decide          -- 32768 overflows short
+example : extractFromString (.num ⟨2, false⟩) [45, 49] = some 65535 := by decide         -- "-1" into unsigned short (num_get rule)
+example : extractFromString (.num i16) [49, 50, 32] = none := by decide                  -- trailing blank
+
+/-! ## enums (`to_string`, `from_string`, `<<`, `>>`) over a names table -/
+
+/-- `from_string(to_string(e)) = e` for every enumerator of every enum whose names are pairwise different. -/
+theorem from_string_to_string (names : List (List Ch)) (hn : names.Nodup) (e : Nat) (he : e < names.length) :
+    ∃ n, enumToString names e = .ok n ∧ enumFromString names n = some e := by
+  refine ⟨names[e], by simp [enumToString, he], ?_⟩
+  exact indexOf_getElem names hn e _ (by simp [he])
+
+/-- `to_string(from_string(s)) = s` whenever `from_string` finds something (no assumption on the table), and it finds
+the first enumerator with that name. -/
+theorem to_string_from_string (names : List (List Ch)) (s : List Ch) (e : Nat) (h : enumFromString names s = some e) :
+    enumToString names e = .ok s ∧ ∀ j, j < e → enumToString names j ≠ .ok s := by
+  obtain ⟨h1, h2⟩ := indexOf_some names s e h
+  refine ⟨by simp [enumToString, h1], fun j hj hc => ?_⟩
+  unfold enumToString at hc
+  cases hj' : names[j]? with
+  | none => simp [hj'] at hc
+  | some n => simp [hj'] at hc; exact h2 j hj (by rw [hj', hc])
+
+/-- `from_string` fails exactly on the strings that are not a name. -/
+theorem from_string_none_iff (names : List (List Ch)) (s : List Ch) : enumFromString names s = none ↔ s ∉ names :=
+  indexOf_none names s
+
+/-- Stream output then stream input gives the enumerator back and stops right behind the name (at the end of the
+text or in front of white space), for every enumerator whose name is non-empty and free of white space and NUL. -/
+theorem enum_stream_roundtrip (names : List (List Ch)) (hn : names.Nodup) (e : Nat) (n : List Ch) (rest : List Ch)
+    (hname : enumToString names e = .ok n) (hne : n ≠ []) (hw : ∀ c ∈ n, isSpace c = false ∧ c ≠ 0) (hr : SpaceHead rest) :
+    ∃ out, enumOutput names [] e = .ok out ∧
+      enumInput names { buf := out ++ rest, eof := false, fail := false } = ({ buf := rest, eof := rest.isEmpty, fail := false }, some e) := by
+  refine ⟨n, by simp [enumOutput, hname, bind, Except.bind, pure, Except.pure], ?_⟩
+  have hidx : names[e]? = some n := by
+    unfold enumToString at hname
+    cases h : names[e]? with
+    | none => simp [h] at hname
+    | some m => simp [h] at hname; rw [hname]
+  have hnar : narrowString n = some n := by
+    unfold narrowString
+    rw [if_neg]
+    simp only [List.any_eq_true, not_exists, not_and]
+    intro c hc; simp; exact (hw c hc).2
+  unfold enumInput
+  rw [getWord_word n rest hne (fun c hc => (hw c hc).1) hr]
+  simp [hnar, enumFromString, indexOf_getElem names hn e n hidx]
+
+/-! ### non-vacuity and the role of the hypothesis: with a duplicated name the first enumerator wins -/
+example : enumFromString [[97], [98], [97]] [97] = some 0 := by decide
+example : enumToString [[97], [98], [97]] 2 = .ok [97] := by decide
+example : ([[102, 111, 111], [98, 97, 114]] : List (List Ch)).Nodup := by decide
+example : enumInput [[102, 111, 111], [98, 97, 114]] (IStream.ofString [32, 98, 97, 114, 10]) =
+    ({ buf := [10], eof := false, fail := false }, some 1) := by decide
+example : (enumInput [[102, 111, 111], [98, 97, 114]] (IStream.ofString [98, 97])).2 = none := by decide
+
+/-! ## vectors and dims (`(a,b,c)`) -/
+
+/-- Writing a vector of any length whose elements are values of the element type and reading it back gives the same
+elements, consumes exactly the text written and leaves the stream good. -/
+theorem vector_input_output_roundtrip (t : IntTy) (ht : 0 < t.bytes) (h8 : t.bytes ≤ 8) (vs : List Int)
+    (hv : ∀ v ∈ vs, t.InRange v) (rest : List Ch) :
+    vecInput t vs.length (IStream.ofString (vecOutput vs [] ++ rest)) = ({ buf := rest, eof := false, fail := false }, vs) := by
+  unfold vecInput IStream.ofString
+  rw [vecOutput_eq]
+  simp only [List.nil_append, List.append_assoc, List.cons_append]
+  rw [expect_match 40 _ (by decide)]
+  have h := vecInputLoop_body t ht h8 vs hv rest []
+  rw [h]
+  simp only [List.reverse_nil, List.nil_append]
+  rw [expect_match 41 _ (by decide)]
+
+example : vecOutput [1, -2, 3] [] = [40, 49, 44, 45, 50, 44, 51, 41] := by decide
+example : vecInput ⟨4, true⟩ 2 (IStream.ofString [40, 32, 49, 32, 44, 50, 41, 120]) = ({ buf := [120], eof := false, fail := false }, [1, 2]) := by decide
+/-- a missing `)` is a failure -/
+example : (vecInput ⟨4, true⟩ 2 (IStream.ofString [40, 49, 44, 50])).1.fail = true := by decide
+
+/-! ## the `impl::codecvt` loop over an arbitrary converter -/
+
+/-- For ANY converter that satisfies the contract (`Contract`: writes inside the window, reads inside the input, what it
+wrote is the conversion of what it consumed, output only from consumed input) and any compositional meaning `R` of
+"conversion", the loop — from every loop state that can arise, i.e. every buffer size, capacity and growth history —
+terminates within the fuel, never faults, and returns a failure or the conversion of the COMPLETE input ending in the
+initial state; never a proper prefix.  (`noconv`: the input itself, as the code does.) -/
+theorem codecvt_loop_complete_or_fail {σ In Out : Type} (cv : Converter σ In Out) (R : σ → List In → List Out → σ → Prop)
+    (hc : Contract cv R) (hR : Compositional R) (string : List In)
+    (fuel : Nat) (state : σ) (frm : Nat) (buf : Buf Out)
+    (hfrm : frm ≤ string.length) (hinv : R cv.init (string.take frm) buf.data state)
+    (hfuel : loopMeasure string.length cv.maxLength frm buf < fuel) :
+    ∃ res, codecvtLoop cv string fuel state frm buf = .ok res ∧
+      (res = none ∨ (res = some (string.map cv.cast) ∧ ∃ s inp w, (cv.step s inp w).res = .noconv) ∨
+        ∃ out s', res = some out ∧ R cv.init string out s' ∧ cv.isInit s' = true) :=
+  loop_outcome cv R hc hR string fuel state frm buf hfrm hinv hfuel
+
+/-- … in particular `fcppt::impl::codecvt` itself (initial buffer = length of the input, `2n + 3` iterations suffice). -/
+theorem codecvt_complete_or_fail {σ In Out : Type} (cv : Converter σ In Out) (R : σ → List In → List Out → σ → Prop)
+    (hc : Contract cv R) (hR : Compositional R) (hinit : cv.isInit cv.init = true) (string : List In) :
+    ∃ res, codecvt cv string = .ok res ∧
+      (res = none ∨ (res = some (string.map cv.cast) ∧ ∃ s inp w, (cv.step s inp w).res = .noconv) ∨
+        ∃ out s', res = some out ∧ R cv.init string out s' ∧ cv.isInit s' = true) :=
+  codecvt_outcome cv R hc hR hinit string
+
+/-- Never a proper prefix: if conversion is a function of the input, a result is THE conversion of the whole input. -/
+theorem codecvt_never_a_proper_prefix {σ In Out : Type} (cv : Converter σ In Out) (R : σ → List In → List Out → σ → Prop)
+    (hc : Contract cv R) (hR : Compositional R) (hinit : cv.isInit cv.init = true)
+    (hnn : ∀ s inp w, (cv.step s inp w).res ≠ .noconv)
+    (hfun : ∀ a x y s1 s2, R cv.init a x s1 → R cv.init a y s2 → x = y)
+    (string : List In) (full : List Out) (sf : σ) (hfull : R cv.init string full sf) (out : List Out)
+    (h : codecvt cv string = .ok (some out)) : out = full := by
+  obtain ⟨res, hres, ho⟩ := codecvt_outcome cv R hc hR hinit string
+  rw [h] at hres
+  cases hres
+  rcases ho with ho | ⟨_, s, inp, w, hn⟩ | ⟨o, s', ho, hr, _⟩
+  · cases ho
+  · exact absurd hn (hnn s inp w)
+  · cases ho; exact hfun _ _ _ _ _ hr hfull
+
+/-- If moreover the converter does not get stuck on good input (`Live`), good input is converted. -/
+theorem codecvt_succeeds_on_good_input {σ In Out : Type} (cv : Converter σ In Out) (R : σ → List In → List Out → σ → Prop)
+    (hc : Contract cv R) (Good : σ → List In → Prop) (hl : Live cv Good) (string : List In) (hg : Good cv.init string) :
+    ∃ out, codecvt cv string = .ok (some out) :=
+  codecvt_succeeds cv R hc Good hl string hg
+
+/-- The model of the C.utf8 facet (libstdc++ over glibc, validated against the real facet on every run) satisfies the
+contract and is live on valid input — the hypotheses above are not vacuous. -/
+theorem facet_model_meets_contract :
+    Contract utf8Out OutRel ∧ Compositional OutRel ∧ Live utf8Out OutGood ∧
+    Contract utf8In DecRel ∧ Compositional DecRel ∧ Live utf8In InGood :=
+  ⟨utf8Out_contract, outRel_compositional, utf8Out_live, utf8In_contract, decRel_compositional, utf8In_live⟩
+
+/-! ### the three repaired defects of the loop, refuted on witnesses (`Old.codecvt v`: the loop before the fix) -/
+
+/-- before 59b5504: `narrow(L"ä")` is the empty string, `narrow(L"a\U0010FFFF")` is the prefix `"a"` -/
+example : Old.codecvt 0 utf8Out [0xE4] = .ok (some []) := by decide
+example : Old.codecvt 0 utf8Out [0x61, 0x10FFFF] = .ok (some [0x61]) := by decide
+/-- before 5e38615: `narrow(L"ä\0ä")` loses its last character (`ok` with an exactly full window behind the NUL) -/
+example : Old.codecvt 1 utf8Out [0xE4, 0, 0xE4] = .ok (some [0xC3, 0xA4, 0]) := by decide
+/-- before ee22c42: `widen("a\xc3")` is `L"a"` (glibc keeps the incomplete byte in the state and reports `ok`) -/
+example : Old.codecvt 2 utf8In [0x61, 0xC3] = .ok (some [0x61]) := by decide
+/-- now -/
+example : narrowLocale [0xE4] = .ok (some [0xC3, 0xA4]) := by decide
+example : narrowLocale [0x61, 0x10FFFF] = .ok (some [0x61, 0xF4, 0x8F, 0xBF, 0xBF]) := by decide
+example : narrowLocale [0xE4, 0, 0xE4] = .ok (some [0xC3, 0xA4, 0, 0xC3, 0xA4]) := by decide
+example : widenLocale [0x61, 0xC3] = .ok none := by decide
+
+/-! ## UTF-8 -/
+
+/-- The encoder is UTF-8 by its bit layout; Unicode scalar values are valid and take at most four bytes. -/
+theorem encode_is_utf8 (c : Nat) : encodeWc c = Spec.utf8Encode c := encodeWc_eq_spec c
+
+theorem scalar_is_valid (c : Nat) (h : Spec.IsScalar c) : validWc c = true ∧ (Spec.utf8Encode c).length ≤ 4 :=
+  ⟨scalar_valid c h, scalar_len c h⟩
+
+/-- decode ∘ encode = id for every list (any length) of valid characters — all scalar values among them —, and the
+decoder is a function: the encoding loses nothing. -/
+theorem decode_encode (ws : List Nat) (hv : ∀ c ∈ ws, validWc c = true) :
+    DecRel [] (Spec.utf8EncodeAll ws) ws [] ∧ ∀ out p, DecRel [] (Spec.utf8EncodeAll ws) out p → out = ws ∧ p = [] := by
+  rw [← encodeAll_eq_spec ws hv]
+  exact ⟨decRel_encodeAll ws hv, fun out p h => decRel_functional h (decRel_encodeAll ws hv)⟩
+
+theorem decode_encode_scalars (ws : List Nat) (hs : ∀ c ∈ ws, Spec.IsScalar c) : DecRel [] (Spec.utf8EncodeAll ws) ws [] :=
+  (decode_encode ws (fun c hc => scalar_valid c (hs c hc))).1
+
+/-- the encoding is injective on strings (it is a prefix code) -/
+theorem encode_injective (w1 w2 : List Nat) (h1 : ∀ c ∈ w1, validWc c = true) (h2 : ∀ c ∈ w2, validWc c = true)
+    (h : Spec.utf8EncodeAll w1 = Spec.utf8EncodeAll w2) : w1 = w2 := by
+  have a := (decode_encode w1 h1).1
+  rw [h] at a
+  exact ((decode_encode w2 h2).2 w1 [] a).1
+
+/-- encode ∘ decode = id: whatever the decoder accepts completely (nothing pending) outside the excluded class is
+the encoding of its output, every output character is valid — overlong forms, surrogates, stray and missing
+continuation bytes are never accepted. -/
+theorem encode_decode (bs out : List Nat) (h : DecRel [] bs out []) (hn : nulWhilePending [] bs = false) :
+    bs = Spec.utf8EncodeAll out ∧ ∀ c ∈ out, validWc c = true := by
+  obtain ⟨h1, h2⟩ := decRel_sound h hn
+  simp only [List.nil_append, List.append_nil] at h1
+  exact ⟨by rw [h1, encodeAll_eq_spec out h2], h2⟩
+
+/-! ## `narrow` / `widen` in C.utf8 -/
+
+/-- `narrow_locale` (= `from_std_wstring_locale`): the complete UTF-8 encoding or a failure, never a part of it. -/
+theorem narrow_complete_or_fail (ws : List Nat) :
+    narrowLocale ws = .ok none ∨ (narrowLocale ws = .ok (some (Spec.utf8EncodeAll ws)) ∧ ∀ c ∈ ws, validWc c = true) := by
+  rcases narrowLocale_outcome ws with h | ⟨h, hv⟩
+  · exact Or.inl h
+  · exact Or.inr ⟨by rw [h, encodeAll_eq_spec ws hv], hv⟩
+
+/-- `widen_locale` (= `to_std_wstring_locale`): a failure, or the decoding of the complete input with nothing pending;
+and unless the input belongs to the excluded class of the known finding (a NUL byte arriving while an incomplete
+sequence is pending — `nulWhilePending`, e.g. `c3 00 a4`), the input is exactly the UTF-8 encoding of the result. -/
+theorem widen_complete_or_fail (bs : List Nat) :
+    widenLocale bs = .ok none ∨
+    ∃ out, widenLocale bs = .ok (some out) ∧ DecRel [] bs out [] ∧
+      (nulWhilePending [] bs = false → bs = Spec.utf8EncodeAll out ∧ ∀ c ∈ out, validWc c = true) := by
+  rcases widenLocale_outcome bs with h | ⟨out, h, hd⟩
+  · exact Or.inl h
+  · exact Or.inr ⟨out, h, hd, fun hn => encode_decode bs out hd hn⟩
+
+/-- NUL-free input of any validity is never in the excluded class: there the strong statement holds unconditionally. -/
+theorem widen_complete_or_fail_nul_free (bs : List Nat) (h0 : ∀ b ∈ bs, b ≠ 0) :
+    widenLocale bs = .ok none ∨ ∃ out, widenLocale bs = .ok (some out) ∧ bs = Spec.utf8EncodeAll out ∧ ∀ c ∈ out, validWc c = true := by
+  rcases widen_complete_or_fail bs with h | ⟨out, h, _, hs⟩
+  · exact Or.inl h
+  · exact Or.inr ⟨out, h, hs (nulWhilePending_of_no_nul bs h0 [])⟩
+
+/-- The known finding, reproduced by the model: `c3 00 a4` is in the excluded class and is "converted". -/
+example : nulWhilePending [] [0xC3, 0x00, 0xA4] = true ∧ widenLocale [0xC3, 0x00, 0xA4] = .ok (some [0, 0xE4]) := by decide
+/-- the class is about pending bytes only: a NUL between complete characters is fine -/
+example : nulWhilePending [] [0xC3, 0xA4, 0x00, 0xC3, 0xA4] = false ∧
+    widenLocale [0xC3, 0xA4, 0x00, 0xC3, 0xA4] = .ok (some [0xE4, 0, 0xE4]) := by decide
+
+/-- `widen(narrow(s)) = s` for every string (every length, embedded NULs allowed) of valid characters, through every
+buffer growth path of both loops. -/
+theorem narrow_widen_roundtrip (ws : List Nat) (hv : ∀ c ∈ ws, validWc c = true) :
+    narrowLocale ws = .ok (some (Spec.utf8EncodeAll ws)) ∧ widenLocale (Spec.utf8EncodeAll ws) = .ok (some ws) := by
+  rw [← encodeAll_eq_spec ws hv]
+  exact ⟨narrowLocale_valid ws hv, widenLocale_valid ws hv⟩
+
+/-- … in particular for every string of Unicode scalar values U+0000 … U+10FFFF. -/
+theorem narrow_widen_roundtrip_scalars (ws : List Nat) (hs : ∀ c ∈ ws, Spec.IsScalar c) :
+    narrowLocale ws = .ok (some (Spec.utf8EncodeAll ws)) ∧ widenLocale (Spec.utf8EncodeAll ws) = .ok (some ws) :=
+  narrow_widen_roundtrip ws (fun c hc => scalar_valid c (hs c hc))
+
+/-- `narrow(widen(b)) = b` whenever `widen` succeeds outside the excluded class. -/
+theorem widen_narrow_roundtrip (bs out : List Nat) (h : widenLocale bs = .ok (some out)) (hn : nulWhilePending [] bs = false) :
+    narrowLocale out = .ok (some bs) := by
+  rcases widen_complete_or_fail bs with h' | ⟨o, h', _, hs⟩
+  · rw [h] at h'; cases h'
+  · rw [h] at h'; cases h'
+    obtain ⟨hb, hv⟩ := hs hn
+    rw [hb]; exact (narrow_widen_roundtrip out hv).1
+
+/-- Invalid input is reported: a string with a character the encoder refuses has no narrow form … -/
+theorem narrow_fails_on_invalid (ws : List Nat) (c : Nat) (hc : c ∈ ws) (hbad : validWc c = false) : narrowLocale ws = .ok none := by
+  rcases narrow_complete_or_fail ws with h | ⟨_, hv⟩
+  · exact h
+  · have := hv c hc; rw [hbad] at this; cases this
+
+/-- … and bytes that are not the encoding of anything (outside the excluded class) make `widen` throw. -/
+theorem widen_fails_on_invalid (bs : List Nat) (hn : nulWhilePending [] bs = false)
+    (hbad : ¬ ∃ ws, (∀ c ∈ ws, validWc c = true) ∧ bs = Spec.utf8EncodeAll ws) : widenLocale bs = .ok none := by
+  rcases widen_complete_or_fail bs with h | ⟨out, _, _, hs⟩
+  · exact h
+  · obtain ⟨hb, hv⟩ := hs hn
+    exact absurd ⟨out, hv, hb⟩ hbad
+
+/-! ### non-vacuity -/
+example : Spec.IsScalar 0x10FFFF ∧ Spec.IsScalar 0x1F600 ∧ ¬ Spec.IsScalar 0xD800 := by
+  refine ⟨by unfold Spec.IsScalar; omega, by unfold Spec.IsScalar; omega, by unfold Spec.IsScalar; omega⟩
+example : Spec.utf8EncodeAll [0x61, 0xE4, 0x20AC, 0x1F600] = [0x61, 0xC3, 0xA4, 0xE2, 0x82, 0xAC, 0xF0, 0x9F, 0x98, 0x80] := by decide
+example : widenLocale [0xC0, 0x80] = .ok none ∧ widenLocale [0xED, 0xA0, 0x80] = .ok none ∧ widenLocale [0xE2, 0x82] = .ok none := by decide
+example : narrowLocale [0x61, 0xD800] = .ok none := by decide
+
+end Fcppt.C15
